@@ -5,9 +5,14 @@ S1  TLC checks SystemGate.tla: (A) with no rule loaded, every reachable state of
     history, and lemmas quantified over the whole rule universe x every reading (BBR never stricter than its plain twin,
     unsampled load/cpu never blocks, monotone in the trigger); (B) rule list chosen in Init (every single rule of the
     universe + hand-picked lists): outbound never blocked, blocked iff some rule violated, blocked leaves no trace.
+    An entry completes by Exit(), Exit(WithError) or TraceError + Exit (and calls on a completed entry change nothing):
+    the first-principles readings range over every completion whatever its kind; spec-level mutants of the completion
+    bookkeeping (an error completion skips the RT / the completion count / loses its flag) must be rejected (vacuity guard).
 S2  scenarios: TLC random simulation of the same spec (rule lists of up to 2 rules), a TLC transition cover of a tiny
     instance, and seeded random histories (mixed inbound/outbound on several resources, batches, held entries, rule
-    reloads, load / cpu samples; a BBR-focused family that builds a capacity estimate and then probes around it).
+    reloads, load / cpu samples; a BBR-focused family that builds a capacity estimate and then probes around it; a
+    completion-focused family: held entries completing in every way, then a reload to a probing rule list - avg RT
+    trigger 0 makes the block REPORT the inbound average RT, BBR trigger 0 exposes min RT x peak - and back).
 S3  harness/cmd/c07 replays them on the real code through api.Entry and records every decision.
 S4  SystemGate_Trace.tla (TLC) decides each recorded decision with the operators of SystemGateOps.tla.
 """
@@ -18,17 +23,30 @@ from vlib import main, write_ndjson, read_ndjson, MachineryError
 TRACE = 'SystemGate_Trace'
 
 
-def mc_cfg(which, thorough, emit=False):
+INV_A = 'TypeOK QpsOK AvgRtOK MinRtOK PeakOK ConcOK ErrOK LoneRequestNeverShed AllBBRWeaker AllUnsampledNeverBlocks AllMonotoneInTrigger'
+
+# spec-level mutants of the completion bookkeeping (SystemGate_MC) and the invariant that must reject each
+SPEC_MUTANTS = [('MutErrSkipsRt', 'AvgRtOK'), ('MutErrSkipsRt', 'MinRtOK'), ('MutErrSkipsComplete', 'PeakOK'),
+                ('MutErrSkipsComplete', 'AvgRtOK'), ('MutErrDropped', 'ErrOK')]
+
+
+def mc_cfg(which, thorough, emit=False, mutant=None, inv=None):
     if which == 'A':
         c = dict(lists='MCRuleLists', maxrules=0, ops=3, open=2, sets=0, ticks=3 if thorough else 2, steps='{250, 500, 1000}',
-                 inv='TypeOK QpsOK AvgRtOK MinRtOK PeakOK ConcOK LoneRequestNeverShed AllBBRWeaker AllUnsampledNeverBlocks AllMonotoneInTrigger')
+                 traced=2, exits='{FALSE, TRUE}', lates='{"exit", "trace"}', inv=INV_A)
     elif which == 'B':
         c = dict(lists='MCRuleListsPlus', maxrules=1, ops=3 if thorough else 2, open=2, sets=1, ticks=2, steps='{250, 1000}',
+                 # quick: the structural invariants do not read the error kind - plain completions only (run A explores
+                 # every kind of completion); thorough: both kinds of Exit
+                 traced=0, exits='{FALSE, TRUE}' if thorough else '{FALSE}', lates='{}',
                  inv='TypeOK ConcOK OutboundNeverBlocked BlockedIffViolated NoRuleNoBlock BlockedLeavesNoTrace BBRWeaker UnsampledNeverBlocks LoneRequestNeverShed')
     elif which == 'cover':      # tiny instance for the transition cover
-        c = dict(lists='MCMulti', maxrules=0, ops=2, open=2, sets=0, ticks=1, steps='{250, 1000}', inv='')
+        c = dict(lists='MCMulti', maxrules=0, ops=2, open=2, sets=0, ticks=1, steps='{250, 1000}', traced=0, exits='{FALSE, TRUE}', lates='{}', inv='')
     else:                       # 'sim': random behaviours over rule lists of up to 2 rules
-        c = dict(lists='MCRuleListsPlus', maxrules=2, ops=8, open=3, sets=3, ticks=6, steps='{250, 500, 1000}', inv='')
+        c = dict(lists='MCRuleListsPlus', maxrules=2, ops=8, open=3, sets=3, ticks=6, steps='{250, 500, 1000}', traced=3, exits='{FALSE, TRUE}', lates='{"exit", "trace"}', inv='')
+    if inv is not None:
+        c['inv'] = inv
+    c['mut'] = ('CONSTANT CompleteUpd <- %s\n' % mutant) if mutant else ''
     return """SPECIFICATION Spec
 CONSTANTS
   RuleLists <- %(lists)s
@@ -39,9 +57,12 @@ CONSTANTS
   MaxOpen = %(open)d
   MaxSets = %(sets)d
   MaxTicks = %(ticks)d
+  MaxTraced = %(traced)d
+  ExitKinds = %(exits)s
+  LateKinds = %(lates)s
   MaxRules = %(maxrules)d
   Triggers = {0, 1, 2}
-VIEW view
+%(mut)sVIEW view
 %(invl)s
 CHECK_DEADLOCK FALSE
 %(emit)s""" % dict(c, invl=('INVARIANTS ' + c['inv']) if c['inv'] else '', emit='ACTION_CONSTRAINT Emit\n' if emit else '')
@@ -63,9 +84,14 @@ def decorate(hist, tr, rng):
             o['res'] = rng.randint(1, 3)
             if o['ty'] == 'out':
                 outb.append(o['id'])
+        if o['op'] == 'trace':
+            o['via'] = rng.choice(['api', 'api', 'entry'])
         out.append(o)
-        if outb and rng.random() < 0.3:
-            out.append(dict(op='exit', id=outb.pop(rng.randrange(len(outb)))))
+        if outb and rng.random() < 0.3:         # outbound entries complete in every way too (never reaches the inbound node)
+            i = outb.pop(rng.randrange(len(outb)))
+            if rng.random() < 0.25:
+                out.append(dict(op='trace', id=i, via='api'))
+            out.append(dict(op='exit', id=i, err=rng.random() < 0.3))
     return out
 
 
@@ -90,11 +116,72 @@ def rnd_rules(rng, n=None, mts=None):
     return rules
 
 
+def completion_ops(rng, open_ids, done_ids):
+    """complete one open entry in one of the three ways: Exit(), Exit(WithError), TraceError/SetError [... later] Exit"""
+    i = open_ids.pop(rng.randrange(len(open_ids)))
+    done_ids.append(i)
+    x = rng.random()
+    if x < 0.50:
+        return [dict(op='exit', id=i, err=False)]
+    if x < 0.80:
+        return [dict(op='exit', id=i, err=True)]
+    return [dict(op='trace', id=i, via=rng.choice(['api', 'entry'])), dict(op='exit', id=i, err=rng.random() < 0.2)]
+
+
+PROBES = [[('rt', 0, 1)], [('rt', 0, 1)], [('rt', 0, 1)], [('rt', 1, 1)], [('rt', 10, 1)], [('rt', 50, 1)], [('rt', 100, 1)],
+          [('rt', 250, 1)], [('rt', 500, 1)], [('rt', 75, 2)], [('rt', 0, 1), ('qps', 0, 1)], [('conc', 0, 1)], [('qps', 0, 1)],
+          [('load', 0, 1)], [('cpu', 0, 1)], [('load', 1, 2), ('cpu', 1, 4)], [('load', 0, 1), ('rt', 100, 1)]]
+
+
+def completion_scenario(rng, tr):
+    """completion-focused history: inbound entries held for shaped response times and completed in EVERY way, and in
+    between a reload to a probing rule list followed by one inbound request: an avg-RT rule with trigger 0 always blocks
+    and REPORTS the inbound average RT (judged exactly), BBR load / cpu rules with trigger 0 block iff in-flight exceeds
+    peak completions x min RT, other triggers probe the decision boundary; then the base list is loaded again"""
+    base = rnd_rules(rng, rng.choice([0, 0, 1, 2]), ['qps', 'conc', 'rt', 'load', 'cpu'])
+    for r in base:                                              # a loose base list: traffic mostly flows
+        if r['mt'] in ('qps', 'conc'):
+            r['num'], r['den'] = rng.choice([(8, 1), (13, 1), (40, 1)])
+        elif r['mt'] == 'rt':
+            r['num'], r['den'] = rng.choice([(100, 1), (250, 1), (500, 1), (1000, 1)])
+    s = [dict(op='new', tr=tr, t=rng.choice([1, 499, 500, 777, 1000, rng.randint(1, 5000)]), rules=base)]
+    s.append(dict(op='load', num=rng.choice([3, 8]), den=1))
+    s.append(dict(op='cpu', num=rng.choice([3, 1]), den=rng.choice([4, 1])))
+    nid, open_ids, done_ids = 0, [], []
+    for _ in range(rng.randint(14, 40)):
+        x = rng.random()
+        if x < 0.32:
+            nid += 1
+            ty = 'in' if rng.random() < 0.88 else 'out'
+            s.append(dict(op='enter', id=nid, res=rng.randint(1, 3), ty=ty, b=rng.choice([1, 1, 1, 2, 4])))
+            open_ids.append(nid)
+        elif x < 0.57 and open_ids:
+            s += completion_ops(rng, open_ids, done_ids)
+        elif x < 0.80:
+            s.append(dict(op='tick', d=rng.choice([0, 1, 5, 20, 40, 40, 80, 150, 250, 400, 499, 500, 700, 1000, rng.randint(0, 600)])))
+        elif x < 0.83 and done_ids:
+            s.append(dict(op='late', id=rng.choice(done_ids), how=rng.choice(['exit', 'trace'])))
+        else:                                                   # probe
+            pl = [dict(mt=mt, num=num, den=den, bbr=(mt in ('load', 'cpu') and rng.random() < 0.8)) for mt, num, den in rng.choice(PROBES)]
+            nid += 1
+            s.append(dict(op='rules', rules=pl))
+            s.append(dict(op='enter', id=nid, res=rng.randint(1, 3), ty='in', b=1))
+            if rng.random() < 0.7:
+                s.append(dict(op='exit', id=nid, err=rng.random() < 0.3))      # (ignored by the driver when the probe was blocked)
+            else:
+                open_ids.append(nid)
+            s.append(dict(op='rules', rules=base))
+    return s
+
+
 def random_scenarios(c, n, first_tr):
     rng = c.rng
     scns = []
     for i in range(n):
         tr = first_tr + i
+        if rng.random() < 0.30:
+            scns.append(completion_scenario(rng, tr))
+            continue
         bbr_focus = rng.random() < 0.35
         if bbr_focus:
             rules = rnd_rules(rng, rng.choice([1, 1, 2]), ['load', 'cpu'])
@@ -107,7 +194,7 @@ def random_scenarios(c, n, first_tr):
             rules = rnd_rules(rng)
         s = [dict(op='new', tr=tr, t=rng.choice([1, 499, 500, 777, 1000, 12345, rng.randint(1, 5000)]), rules=rules)]
         nid = 0
-        open_ids = []
+        open_ids, done_ids = [], []
         if bbr_focus:
             s.append(dict(op=rng.choice(['load', 'cpu']), num=rng.choice([1, 3, 8]), den=rng.choice([1, 2])))
             if rng.random() < 0.7:
@@ -121,7 +208,7 @@ def random_scenarios(c, n, first_tr):
                 s.append(dict(op='enter', id=nid, res=rng.randint(1, 3), ty=ty, b=rng.choice([1, 1, 1, 2, 4, 8])))
                 open_ids.append(nid)
             elif x < 0.68 and open_ids:
-                s.append(dict(op='exit', id=open_ids.pop(rng.randrange(len(open_ids)))))
+                s += completion_ops(rng, open_ids, done_ids)
             elif x < 0.90:
                 d = rng.choice([0, 1, 7, 50, 100, 250, 250, 499, 500, 501, 1000, 1500, rng.randint(0, 1200)])
                 s.append(dict(op='tick', d=d))
@@ -131,8 +218,10 @@ def random_scenarios(c, n, first_tr):
             elif x < 0.98:
                 num, den = rng.choice(CPUS)
                 s.append(dict(op='cpu', num=num, den=den))
-            else:
+            elif x < 0.99 or not done_ids:
                 s.append(dict(op='rules', rules=rnd_rules(rng)))
+            else:
+                s.append(dict(op='late', id=rng.choice(done_ids), how=rng.choice(['exit', 'trace'])))
         scns.append(s)
     return scns
 
@@ -159,6 +248,8 @@ def trace_stats(c, tp):
     """coverage counted from what the real code did"""
     st = c.cov.setdefault('decisions', dict(inbound_admitted=0, inbound_blocked=0, outbound_admitted=0, outbound_blocked=0,
                                             blocked_by=dict()))
+    cs = c.cov.setdefault('inbound_completions', dict(plain=0, exit_with_error=0, trace_then_exit=0, late_calls=0, outbound=0))
+    traced, inb = set(), set()
     nontriv = set()
     cur, key, adm, blk, nrules = None, [], False, False, 0
     def close():
@@ -175,6 +266,18 @@ def trace_stats(c, tp):
         key.append(k)
         if e['op'] == 'rules':
             nrules = len(e['rules'])
+        if e['op'] == 'new':
+            traced, inb = set(), set()
+        elif e['op'] == 'enter' and e['ok'] and e['ty'] == 'in':
+            inb.add(e['id'])
+        elif e['op'] == 'exit' and e['id'] not in inb:
+            cs['outbound'] += 1
+        elif e['op'] == 'trace':
+            traced.add(e['id'])
+        elif e['op'] == 'late':
+            cs['late_calls'] += 1
+        elif e['op'] == 'exit':
+            cs['trace_then_exit' if e['id'] in traced else ('exit_with_error' if e.get('err') else 'plain')] += 1
         if e['op'] == 'enter':
             side = 'inbound' if e['ty'] == 'in' else 'outbound'
             st['%s_%s' % (side, 'admitted' if e['ok'] else 'blocked')] += 1
@@ -274,6 +377,16 @@ def check(c, tier, replay):
         r = c.model_check('SystemGate_MC', cfg_text=mc_cfg(which, thorough), workers=8, timeout=1500)
         if not r.completed:
             c.inconclusive.append('SystemGate.tla (run %s): %s violated - the design-level spec is inconsistent' % (which, r.violated))
+    # vacuity guard: the completion bookkeeping with a defect in how an error-carrying completion is recorded must be rejected
+    for mut, inv in (() if os.environ.get('VERIF_SKIP_S1') else SPEC_MUTANTS):
+        r = c.tlc('SystemGate_MC', cfg_text=mc_cfg('A', False, mutant=mut, inv=inv), workers=4, timeout=600, count=False)
+        if r.violated != inv:
+            raise MachineryError('vacuity guard: spec mutant %s of SystemGate must violate %s, got %s\n%s' % (
+                mut, inv, r.violated or r.error or 'no error', r.out[-1500:]))
+        c.cov.setdefault('spec_mutants_rejected', []).append('%s -> %s' % (mut, inv))
+    if not os.environ.get('VERIF_SKIP_S1'):
+        c.log('S1 vacuity guard: %d spec-level mutants of the completion bookkeeping rejected (%s)' % (
+            len(SPEC_MUTANTS), ', '.join('%s by %s' % m for m in SPEC_MUTANTS)))
     c.cov['exhaustive'] = True
     # S2 ---------------------------------------------------------------------------------
     scns, tr = [], 0
@@ -299,7 +412,7 @@ def check(c, tier, replay):
         tr += 1
         scns.append(decorate(hh, tr, c.rng))
     c.log('S2 TLC simulation: %d behaviours' % len(sim))
-    nrand = 1200 if not thorough else 15000
+    nrand = 1700 if not thorough else 21000      # 30 % of them completion-focused
     rs = random_scenarios(c, nrand, tr + 1)
     tr += nrand
     # S3 + S4 ----------------------------------------------------------------------------
